@@ -230,7 +230,14 @@ def append_ops(circ, ops, radix):
         elif g == 'BLOCK':
             inner = Circuit(len(loc), [radix] * len(loc))
             append_ops(inner, op['ops'], radix)
-            circ.append_gate(G.CircuitGate(inner), loc, inner.params)
+            # a pre-blocked operation carries its angles twice: in the gate's stored circuit and in op.params, and only op.params
+            # count.  The template is given STALE angles so that a pass that reads the stored ones (instead of the operation's)
+            # changes the program
+            own = [float(x) for x in inner.params]
+            template = inner.copy()
+            if own:
+                template.set_params([0.0] * len(own))
+            circ.append_gate(G.CircuitGate(template), loc, own)
         elif g in NONEXACT:
             gate = {'H': G.HGate, 'SXG': G.SXGate, 'RXF': G.RXGate, 'RYF': G.RYGate, 'RZF': G.RZGate, 'CH': G.CHGate, 'U3F': G.U3Gate}[g]()
             circ.append_gate(gate, loc, [x / 1000.0 for x in op['p']][:gate.num_params])
